@@ -33,3 +33,6 @@ CHECKS = {
         "assumptions": COMMON_ASSUME,
     },
 }
+
+# properties not claimed (reason). Kept current by hand.
+NOT_APPLICABLE = {}
